@@ -55,6 +55,10 @@ func (f *Cond) Call(s *slip.Scope, args slip.List, depth int) (result slip.Objec
 		}
 		for i := 1; i < len(clause); i++ {
 			result = slip.EvalArg(s, clause, i, d2)
+			switch result.(type) {
+			case *slip.ReturnResult, *GoTo:
+				return result
+			}
 		}
 		break
 	}
